@@ -205,7 +205,8 @@ def execute(ctx, runs, prefixes, par_run=6, par_tlc=6):
             stats["runs"] += 1
     if results:
         ctx.sample_lines(results[0][1], 8, 300)
-    stats["_first_trace"] = results[0][1] if results else None
+    gc_traces = [x[1] for x in results if x[0].plan != "NoGC" and not x[0].extra[:1] == ["--gate"]]
+    stats["_first_trace"] = gc_traces[0] if gc_traces else None
     return stats
 
 
